@@ -75,7 +75,7 @@ def shards(tier, seed):
     n = 12 if tier == "quick" else 16
     for i in range(n):
         out.append({"name": f"sweep{i}", "kind": "sweep", "part": i, "parts": n,
-                    "subsets": 10 if tier == "quick" else 400, "routes": 12 if tier == "quick" else 300})
+                    "subsets": 30 if tier == "quick" else 400, "routes": 40 if tier == "quick" else 300})
     for i in range(2 if tier == "quick" else 8):
         out.append({"name": f"freerun{i}", "kind": "freerun", "n": 12 if tier == "quick" else 80})
     return out
